@@ -2,6 +2,9 @@ import AcraModel.Envelope.Poison
 import AcraModel.Envelope.PoisonLemmas
 import AcraModel.Generated.Wiring
 import AcraModel.Props.C01
+import AcraModel.Props.C06
+import AcraModel.Keystore.V1CacheKeys
+import AcraModel.Generated.V1CacheKeys
 /-!
 # C15 — poison records always raise the alarm, ordinary data never does
 
@@ -21,6 +24,32 @@ theorem fact_poison_first :
 theorem fact_translator_checks :
     Wiring.translatorPoisonChecks.map (·.1) = ["Decrypt", "DecryptSearchable", "DecryptSymSearchable", "DecryptSym"] ∧
     ∀ p ∈ Wiring.translatorPoisonChecks, 1 ≤ p.2 := by decide
+
+/-- **What each poison check of AcraTranslator scans.** Every `service.poisonDetector.OnColumn` call of the four
+decrypt operations, with the variable it receives and what that variable HOLDS on the path to the call (data flow
+regenerated from `service.go` and `hmac.ExtractHashAndData`): after a failed reveal the detector gets the very buffer
+`DecryptWithHandler` had received; when no hash can be cut off (`hashPart == nil`) it gets `dataToDecrypt` – NOT
+`containerData`, which is `nil` on that path (seeded change C15-4). -/
+theorem fact_translator_sites :
+    Wiring.translatorPoisonSites =
+      [("Decrypt", "decrypt-failed", "acraStruct", "input", "input"),
+       ("DecryptSearchable", "no-hash", "dataToDecrypt", "hash++input", "-"),
+       ("DecryptSearchable", "decrypt-failed", "containerData", "rest-after-hash", "rest-after-hash"),
+       ("DecryptSymSearchable", "no-hash", "dataToDecrypt", "hash++input", "-"),
+       ("DecryptSymSearchable", "decrypt-failed", "containerData", "rest-after-hash", "rest-after-hash"),
+       ("DecryptSym", "decrypt-failed", "acraBlock", "input", "input")] ∧
+    Wiring.extractHashAndDataNilTogether = true := by decide
+
+/-- the same read the way the model reads it: on every failure path the detector scans data of the caller – the
+whole `dataToDecrypt` when no hash was found, the rest behind the hash when the reveal failed -/
+theorem fact_searchable_scans (k : Kind) (data d rest : Bytes) :
+    Translator.siteBuffer (Translator.siteHolds (Translator.searchableOp k) "no-hash") data d rest = d ∧
+    Translator.siteBuffer (Translator.siteHolds (Translator.searchableOp k) "decrypt-failed") data d rest = rest := by
+  have h1 : Translator.siteHolds "DecryptSearchable" "no-hash" = "hash++input" := by decide
+  have h2 : Translator.siteHolds "DecryptSymSearchable" "no-hash" = "hash++input" := by decide
+  have h3 : Translator.siteHolds "DecryptSearchable" "decrypt-failed" = "rest-after-hash" := by decide
+  have h4 : Translator.siteHolds "DecryptSymSearchable" "decrypt-failed" = "rest-after-hash" := by decide
+  cases k <;> simp [Translator.searchableOp, Translator.siteBuffer, h1, h2, h3, h4]
 
 /-! ## 1. the traced scan computes the same bytes as the plain one
 
@@ -224,7 +253,7 @@ theorem poison_detected_translator_searchable (c : CryptoOps) (st : Translator.S
   simp only
   rcases hd with ⟨hx, hdd⟩ | ⟨hh, hx, hfail⟩
   · rw [hx]
-    simp only
+    simp only [(fact_searchable_scans k' data (Translator.dataToDecrypt data hash) []).1]
     refine ⟨trivial, ?_⟩
     obtain ⟨e, rfl, he, hlen, hproc⟩ := createPoison_facts c k pkW st.poison.pk dataLen rnd P h hP
     unfold Translator.poisonScan
@@ -233,7 +262,8 @@ theorem poison_detected_translator_searchable (c : CryptoOps) (st : Translator.S
     exact translator_poison c st.poison k e pre suf hcb he hlen (isPoison_eq_true.2 ⟨_, hproc suf⟩)
       (by rw [List.append_assoc]; exact c01_skip_of_no_tag_byte _ pre (serBytes e k.id ++ suf) hpre)
   · rw [hx]
-    simp only
+    simp only [(fact_searchable_scans k' data (Translator.dataToDecrypt data hash) (pre ++ P ++ suf)).2,
+      translatorDecryptScan_self]
     obtain ⟨h1, h2⟩ := poison_detected_translator c st.poison (st.keys id) pkW k k' dataLen rnd P pre suf hcb hP h hpre hfail
     cases ht : translatorDecrypt c st.poison (st.keys id) k' (pre ++ P ++ suf) with
     | mk o a =>
@@ -408,6 +438,229 @@ theorem poison_checked_before_replace (c : CryptoOps) (cfg : PoisonCfg) (kv : Ke
     rw [poisonCallback_out]
     split <;> exact fun h => nomatch h
 
+/-! ## 5b. the poison keys come from the real v1 key store (with its cache)
+
+The theorems of section 2 take the detector's poison keys as a key view and assume that the key a record was made
+with occurs in it. This section discharges that assumption for the v1 filesystem key store: `Keystore/V1Cache.lean`
+(C06's model of the store AND its key cache), run over any sequence of operations – rotations of the poison keys
+included –, offers the key of every generation that was not destroyed (`v1_refines_spec`; with a warm cache: every
+generation offered before, `cache_monotone`), hence a poison record made under ANY such generation raises the alarm.
+The one source-level premise of the cache model – the refresh of the cached file-name list after a rotation addresses
+the entry the reader uses – is a regenerated fact about the text of the cache key (`fact_names_cache_key_spelling`). -/
+
+section Store
+open AcraModel.Keystore
+
+/-- **The cached list of current + rotated private key file names is read and refreshed under ONE spelling of its key.**
+`GetHistoricalPrivateKeyFilenames` reads and stores the entry under `.historical.` + `filepath.Join(dir, name)`;
+`SaveKeyPairWithFilename` refreshes it under the same `filepath.Join`, `generateAndSaveSymmetricKey` and
+`destroyRotatedKeyByIndex` under `filepath.Clean(dir + "/" + name)` – the same text for every directory spelling.
+(Seeded change C15-5: `SaveKeyPairWithFilename` refreshes under the uncleaned `dir + "/" + name`.) -/
+theorem fact_names_cache_key_spelling :
+    Generated.V1CacheKeys.namesCacheKeySites =
+      [("GetHistoricalPrivateKeyFilenames", "get", "join"), ("GetHistoricalPrivateKeyFilenames", "load", "join"),
+       ("SaveKeyPairWithFilename", "refresh", "join"), ("destroyRotatedKeyByIndex", "refresh", "clean-sprintf"),
+       ("generateAndSaveSymmetricKey", "refresh", "clean-sprintf")] ∧
+    Generated.V1CacheKeys.privatePathFormat = ("%s%s%s", ["store.privateKeyDirectory", "string(os.PathSeparator)", "filename"]) := by
+  decide
+
+/-- **Every refresh hits the entry the reader uses – for every spelling of the key directory and every key name**
+(trailing separator, `//`, `./` … : all three writers normalise the path exactly like the reader). -/
+theorem names_refresh_hits (dir name : String) :
+    refreshHits "SaveKeyPairWithFilename" dir name = true ∧
+    refreshHits "generateAndSaveSymmetricKey" dir name = true ∧
+    refreshHits "destroyRotatedKeyByIndex" dir name = true :=
+  ⟨refreshHits_of_normalising _ dir name (by decide) (by decide) (by decide),
+   refreshHits_of_normalising _ dir name (by decide) (by decide) (by decide),
+   refreshHits_of_normalising _ dir name (by decide) (by decide) (by decide)⟩
+
+/-- … hence the store whose refreshes are addressed by the spelled keys (`V1.runK`, what the correspondence op
+`C15.v1store` runs for each directory spelling) IS the store of `Keystore/V1Cache.lean` that C06's theorems are about. -/
+theorem v1_store_with_spelled_keys_is_v1_store (dir pairName symName : String) (st : V1) (ops : List Op) :
+    st.runK (refreshHits "SaveKeyPairWithFilename" dir pairName) (refreshHits "generateAndSaveSymmetricKey" dir symName) ops =
+      st.run ops := by
+  rw [(names_refresh_hits dir pairName).1, (names_refresh_hits dir symName).2.1, V1.runK_true]
+
+/-- **Seeded change C15-5 as a theorem about the model.** When the refresh after a key-pair rotation misses the entry
+(`hitPair = false`), a store with a warm cache offers only the NEW poison private key after the rotation: generation 1,
+offered before, is gone – a poison AcraStruct made under it passes silently. With the refresh hitting, both are offered. -/
+theorem refresh_miss_hides_rotated_poison_key_counterexample :
+    ((V1.init 0).runK false true [.gen ppSlot, .all ppSlot, .gen ppSlot, .all ppSlot]).2 = [.ok, .keys [1], .ok, .keys [2]] ∧
+    ((V1.init 0).runK true true [.gen ppSlot, .all ppSlot, .gen ppSlot, .all ppSlot]).2 = [.ok, .keys [1], .ok, .keys [2, 1]] := by
+  decide +kernel
+
+/-- **The v1 store (no cache) offers every poison key that was not destroyed – after ANY sequence of operations.**
+For every run (generations/rotations of any keys, reads, listings, destructions of rotated keys by index, resets,
+reopens; destroy-current excluded – C06's known finding) and every generation `g` of the poison key pair (`s = ppSlot`)
+or the poison symmetric key (`s = psSlot`) that survives it, `GetPoisonPrivateKeys` / `GetPoisonSymmetricKeys` succeed
+and return `g`. (From `v1_refines_spec`.) -/
+theorem v1_store_offers_surviving_poison_keys (ops : List Op) (hops : ∀ o ∈ ops, o.isDcur = false) (s : Slot)
+    (hs : s.kind.hasAll = true) (g : Nat)
+    (hg : g ∈ ((Spec.runApi .v1 Spec.init ops).1 s).survivors) :
+    ∃ l, offeredGens ((V1.init (-1)).run ops).1 s = some l ∧ g ∈ l := by
+  have h := V1.run_sim ops (V1.init (-1)) V1.Inv.init hops
+  have habs : (V1.init (-1)).abs = Spec.init := rfl
+  rw [habs] at h
+  obtain ⟨hinv, ha, _⟩ := h
+  have h2 := (V1.step_sim _ (.all s) hinv rfl).2.2
+  rw [ha] at h2
+  have hne : ((Spec.runApi .v1 Spec.init ops).1 s).survivors ≠ [] := by
+    intro he; rw [he] at hg; cases hg
+  refine ⟨((Spec.runApi .v1 Spec.init ops).1 s).survivors.reverse, ?_, by simpa using hg⟩
+  unfold offeredGens
+  rw [h2]
+  simp [Spec.stepApi, Spec.step, hs, hne, SpecSlot.allNewestFirst]
+
+/-- **With a key cache of any size: a poison key the store offered once is offered as long as it survives.** If a
+detection attempt (`GetPoisonPrivateKeys` / `GetPoisonSymmetricKeys` after `ops1`) was offered generation `g`, then
+after any further operations `ops2` – rotations of the poison keys by this very handle, cache resets, reopens – `g` is
+still offered, provided it was not destroyed. (From `cache_monotone`; this is what seeded change C15-5 breaks for
+non-canonical key directories.) -/
+theorem v1_cached_store_keeps_offering_poison_keys (cache : Int) (ops1 ops2 : List Op) (s : Slot) (g : Nat) (l1 : List Nat)
+    (h1 : ∀ o ∈ ops1, o.isDcur = false) (h2 : ∀ o ∈ ops2, o.isDcur = false)
+    (hobs : offeredGens ((V1.init cache).run ops1).1 s = some l1) (hg : g ∈ l1)
+    (halive : g ∈ ((Spec.runApi .v1 Spec.init (ops1 ++ .all s :: ops2)).1 s).survivors) :
+    ∃ l2, offeredGens (((((V1.init cache).run ops1).1.step (.all s)).1.run ops2).1) s = some l2 ∧ g ∈ l2 := by
+  have hobs' : (((V1.init cache).run ops1).1.step (.all s)).2 = .keys l1 := by
+    unfold offeredGens at hobs
+    cases hx : (((V1.init cache).run ops1).1.step (.all s)).2 <;> rw [hx] at hobs <;> simp at hobs
+    rw [hobs]
+  obtain ⟨l2, hl2, hg2⟩ := AcraModel.Props.C06.cache_monotone cache ops1 ops2 s g l1 h1 h2 hobs' hg halive
+  exact ⟨l2, by unfold offeredGens; rw [hl2], hg2⟩
+
+/-- key material of the generations of the two poison keys: what `keys.New(keys.TypeEC)` / `GenerateSymmetricKey`
+returned at the `g`-th generation (the store model identifies keys by generation number) -/
+structure PoisonMaterial where
+  priv : Nat → Bytes
+  sym : Nat → Bytes
+
+/-- the poison key view `PoisonRecordKeyStoreWrapper` presents to the detector over the store state `st`:
+`GetServerDecryptionPrivateKeys` ↦ `GetPoisonPrivateKeys`, `GetClientIDSymmetricKeys` ↦ `GetPoisonSymmetricKeys` -/
+def storePoisonView (km : PoisonMaterial) (st : V1) : KeyView :=
+  ⟨none, (offeredGens st ppSlot).map (·.map km.priv), none, (offeredGens st psSlot).map (·.map km.sym)⟩
+
+/-- **A poison AcraStruct made under ANY generation the store offers raises the alarm.** The detector reads its keys
+from the store state `st`; the record was made with the public key of generation `g`, and `g` is among the generations
+`GetPoisonPrivateKeys` returns: then the column value `pre ++ P ++ suf` raises the alarm before delivery. (`hside`: a
+key offered BEFORE generation `g` either fails on the record or gives the same answer – the side condition of the C01
+round trip.) -/
+theorem poison_under_offered_generation_alarms_struct (c : CryptoOps) (km : PoisonMaterial) (st : V1) (g : Nat) (l : List Nat)
+    (hoff : offeredGens st ppSlot = some l) (hg : g ∈ l)
+    (hlaws : SealLaws c ∧ SealLen c ∧ MsgLaws c ∧ MsgLen c ∧ KeygenLaws c) (hvalid : c.validPriv (km.priv g) = true)
+    (cfg : PoisonCfg) (hpk : cfg.pk = storePoisonView km st) (hcb : cfg.hasCallbacks = true)
+    (kv pkW : KeyView) (hpub : pkW.pub = some (c.pubOf (km.priv g)))
+    (dataLen : Nat) (rnd P pre suf : Bytes)
+    (hP : createPoison c pkW .struct dataLen rnd = .ok P)
+    (hside : ∀ g' ∈ l.takeWhile (fun x => x != g), ∀ s, createStruct c (c.pubOf (km.priv g)) [] (rnd.take dataLen) (rnd.drop dataLen) = .ok s →
+      decryptStruct c (km.priv g') [] s = .err ∨ decryptStruct c (km.priv g') [] s = .ok (rnd.take dataLen))
+    (hpre : ∀ x ∈ pre, x ≠ 37) :
+    1 ≤ (proxyOnColumn c cfg kv (pre ++ P ++ suf)).2 ∧
+    (cfg.callbackErr = true → (proxyOnColumn c cfg kv (pre ++ P ++ suf)).1 = .fatal) := by
+  obtain ⟨b, hl⟩ := split_at_first g l hg
+  obtain ⟨h1, h2, h3, h4, h5⟩ := hlaws
+  apply poison_detected_in_text c cfg kv pkW .struct dataLen rnd P pre suf hcb hP _ hpre
+  refine ⟨h1, h2, h3, h4, h5, km.priv g, (l.takeWhile (fun x => x != g)).map km.priv, b.map km.priv, hvalid, hpub, ?_, ?_⟩
+  · rw [hpk]
+    simp only [storePoisonView, hoff, Option.map_some]
+    conv => lhs; rw [hl]
+    simp
+  · intro k' hk' s hs
+    obtain ⟨g', hg', rfl⟩ := List.mem_map.mp hk'
+    exact hside g' hg' s hs
+
+/-- **A poison AcraBlock made under ANY generation the store offers raises the alarm** (`hside`, `hlen`: the side
+conditions of the AcraBlock round trip – an offered key listed earlier whose 2-byte id collides does not unseal the
+wrapped data key; the 2-byte id is 2 bytes and the length fields do not wrap). -/
+theorem poison_under_offered_generation_alarms_block (c : CryptoOps) (km : PoisonMaterial) (st : V1) (g : Nat) (l : List Nat)
+    (hoff : offeredGens st psSlot = some l) (hg : g ∈ l)
+    (hlaws : SealLaws c) (hkid : (keyId c (km.sym g) []).length = 2)
+    (cfg : PoisonCfg) (hpk : cfg.pk = storePoisonView km st) (hcb : cfg.hasCallbacks = true)
+    (kv pkW : KeyView) (hsym : pkW.sym = some (km.sym g))
+    (dataLen : Nat) (rnd P pre suf : Bytes)
+    (hP : createPoison c pkW .block dataLen rnd = .ok P)
+    (hside : ∀ g' ∈ l.takeWhile (fun x => x != g), ∀ encKey,
+      c.enc (km.sym g) [] ((rnd.drop dataLen).take 32) (((rnd.drop dataLen).drop 44).take 12) = some encKey →
+      keyId c (km.sym g') [] = keyId c (km.sym g) [] → c.dec (km.sym g') [] encKey = none)
+    (hlen : ∀ encKey, c.enc (km.sym g) [] ((rnd.drop dataLen).take 32) (((rnd.drop dataLen).drop 44).take 12) = some encKey → encKey.length < 65536)
+    (hplen : P.length < 2^63)
+    (hpre : ∀ x ∈ pre, x ≠ 37) :
+    1 ≤ (proxyOnColumn c cfg kv (pre ++ P ++ suf)).2 ∧
+    (cfg.callbackErr = true → (proxyOnColumn c cfg kv (pre ++ P ++ suf)).1 = .fatal) := by
+  obtain ⟨b, hl⟩ := split_at_first g l hg
+  apply poison_detected_in_text c cfg kv pkW .block dataLen rnd P pre suf hcb hP _ hpre
+  refine ⟨hlaws, km.sym g, (l.takeWhile (fun x => x != g)).map km.sym, b.map km.sym, hkid, hsym, ?_, ?_, hlen, hplen⟩
+  · rw [hpk]
+    simp only [storePoisonView, hoff, Option.map_some]
+    conv => lhs; rw [hl]
+    simp
+  · intro k' hk' encKey henc hid
+    obtain ⟨g', hg', rfl⟩ := List.mem_map.mp hk'
+    exact hside g' hg' encKey henc hid
+
+/-- **Composition, no cache: poison made under any surviving generation alarms – after any operation sequence on the
+real store model.** The detector's keys are what the v1 store offers after the run `ops` (rotations of the poison key
+pair included); the AcraStruct poison record was made under generation `g`, not destroyed by `ops`. -/
+theorem poison_detected_v1_store_struct (c : CryptoOps) (km : PoisonMaterial) (ops : List Op) (hops : ∀ o ∈ ops, o.isDcur = false)
+    (g : Nat) (hg : g ∈ ((Spec.runApi .v1 Spec.init ops).1 ppSlot).survivors)
+    (hlaws : SealLaws c ∧ SealLen c ∧ MsgLaws c ∧ MsgLen c ∧ KeygenLaws c) (hvalid : c.validPriv (km.priv g) = true)
+    (cfg : PoisonCfg) (hpk : cfg.pk = storePoisonView km ((V1.init (-1)).run ops).1) (hcb : cfg.hasCallbacks = true)
+    (kv pkW : KeyView) (hpub : pkW.pub = some (c.pubOf (km.priv g)))
+    (dataLen : Nat) (rnd P pre suf : Bytes)
+    (hP : createPoison c pkW .struct dataLen rnd = .ok P)
+    (hside : ∀ g' s, createStruct c (c.pubOf (km.priv g)) [] (rnd.take dataLen) (rnd.drop dataLen) = .ok s →
+      decryptStruct c (km.priv g') [] s = .err ∨ decryptStruct c (km.priv g') [] s = .ok (rnd.take dataLen))
+    (hpre : ∀ x ∈ pre, x ≠ 37) :
+    1 ≤ (proxyOnColumn c cfg kv (pre ++ P ++ suf)).2 := by
+  obtain ⟨l, hl, hgl⟩ := v1_store_offers_surviving_poison_keys ops hops ppSlot rfl g hg
+  exact (poison_under_offered_generation_alarms_struct c km _ g l hl hgl hlaws hvalid cfg hpk hcb kv pkW hpub dataLen rnd P pre suf hP
+    (fun g' _ s hs => hside g' s hs) hpre).1
+
+/-- **Composition, warm cache: a poison AcraStruct made under a key that an earlier detection attempt was offered keeps
+raising the alarm after any further operations of the handle** – in particular after `GeneratePoisonKeyPair` rotated
+that key into the history (the scenario of seeded change C15-5). -/
+theorem poison_detected_v1_cached_store_struct (c : CryptoOps) (km : PoisonMaterial) (cache : Int) (ops1 ops2 : List Op)
+    (h1 : ∀ o ∈ ops1, o.isDcur = false) (h2 : ∀ o ∈ ops2, o.isDcur = false) (g : Nat) (l1 : List Nat)
+    (hobs : offeredGens ((V1.init cache).run ops1).1 ppSlot = some l1) (hg : g ∈ l1)
+    (halive : g ∈ ((Spec.runApi .v1 Spec.init (ops1 ++ .all ppSlot :: ops2)).1 ppSlot).survivors)
+    (hlaws : SealLaws c ∧ SealLen c ∧ MsgLaws c ∧ MsgLen c ∧ KeygenLaws c) (hvalid : c.validPriv (km.priv g) = true)
+    (cfg : PoisonCfg)
+    (hpk : cfg.pk = storePoisonView km (((((V1.init cache).run ops1).1.step (.all ppSlot)).1.run ops2).1))
+    (hcb : cfg.hasCallbacks = true)
+    (kv pkW : KeyView) (hpub : pkW.pub = some (c.pubOf (km.priv g)))
+    (dataLen : Nat) (rnd P pre suf : Bytes)
+    (hP : createPoison c pkW .struct dataLen rnd = .ok P)
+    (hside : ∀ g' s, createStruct c (c.pubOf (km.priv g)) [] (rnd.take dataLen) (rnd.drop dataLen) = .ok s →
+      decryptStruct c (km.priv g') [] s = .err ∨ decryptStruct c (km.priv g') [] s = .ok (rnd.take dataLen))
+    (hpre : ∀ x ∈ pre, x ≠ 37) :
+    1 ≤ (proxyOnColumn c cfg kv (pre ++ P ++ suf)).2 := by
+  obtain ⟨l2, hl2, hg2⟩ := v1_cached_store_keeps_offering_poison_keys cache ops1 ops2 ppSlot g l1 h1 h2 hobs hg halive
+  exact (poison_under_offered_generation_alarms_struct c km _ g l2 hl2 hg2 hlaws hvalid cfg hpk hcb kv pkW hpub dataLen rnd P pre suf hP
+    (fun g' _ s hs => hside g' s hs) hpre).1
+
+/-- the same two compositions for the poison symmetric key and AcraBlock poison records (`GeneratePoisonSymmetricKey`) -/
+theorem poison_detected_v1_cached_store_block (c : CryptoOps) (km : PoisonMaterial) (cache : Int) (ops1 ops2 : List Op)
+    (h1 : ∀ o ∈ ops1, o.isDcur = false) (h2 : ∀ o ∈ ops2, o.isDcur = false) (g : Nat) (l1 : List Nat)
+    (hobs : offeredGens ((V1.init cache).run ops1).1 psSlot = some l1) (hg : g ∈ l1)
+    (halive : g ∈ ((Spec.runApi .v1 Spec.init (ops1 ++ .all psSlot :: ops2)).1 psSlot).survivors)
+    (hlaws : SealLaws c) (hkid : (keyId c (km.sym g) []).length = 2)
+    (cfg : PoisonCfg)
+    (hpk : cfg.pk = storePoisonView km (((((V1.init cache).run ops1).1.step (.all psSlot)).1.run ops2).1))
+    (hcb : cfg.hasCallbacks = true)
+    (kv pkW : KeyView) (hsym : pkW.sym = some (km.sym g))
+    (dataLen : Nat) (rnd P pre suf : Bytes)
+    (hP : createPoison c pkW .block dataLen rnd = .ok P)
+    (hside : ∀ g' encKey, g' ≠ g → c.enc (km.sym g) [] ((rnd.drop dataLen).take 32) (((rnd.drop dataLen).drop 44).take 12) = some encKey →
+      keyId c (km.sym g') [] = keyId c (km.sym g) [] → c.dec (km.sym g') [] encKey = none)
+    (hlen : ∀ encKey, c.enc (km.sym g) [] ((rnd.drop dataLen).take 32) (((rnd.drop dataLen).drop 44).take 12) = some encKey → encKey.length < 65536)
+    (hplen : P.length < 2^63)
+    (hpre : ∀ x ∈ pre, x ≠ 37) :
+    1 ≤ (proxyOnColumn c cfg kv (pre ++ P ++ suf)).2 := by
+  obtain ⟨l2, hl2, hg2⟩ := v1_cached_store_keeps_offering_poison_keys cache ops1 ops2 psSlot g l1 h1 h2 hobs hg halive
+  exact (poison_under_offered_generation_alarms_block c km _ g l2 hl2 hg2 hlaws hkid cfg hpk hcb kv pkW hsym dataLen rnd P pre suf hP
+    (fun g' hg' ek he hid => hside g' ek (mem_takeWhile_ne g g' l2 hg') he hid) hlen hplen hpre).1
+
+end Store
+
 /-! ## 6. non-vacuity: every hypothesis bundle above is met by a concrete instance -/
 
 /-- 2/3 (AcraBlock poison record, stand-in back end, ROTATED poison key, embedded, failing callbacks):
@@ -535,5 +788,55 @@ example : (proxyOnColumn shimOps ⟨false, false, ⟨none, none, some [1], some 
 example : proxyCallbacks boxOps ⟨true, false, ⟨none, none, some [1], some [[1]]⟩⟩ ⟨none, none, none, none⟩ =
     [poisonCallback boxOps ⟨true, false, ⟨none, none, some [1], some [[1]]⟩⟩, plainT (decryptCallback boxOps ⟨none, none, none, none⟩)] :=
   (poison_checked_before_replace boxOps _ _ rfl).1
+
+/-! ### non-vacuity of section 5b -/
+
+section StoreExamples
+open AcraModel.Keystore
+
+/-- `v1_store_offers_surviving_poison_keys`: after two generations of the poison key pair (and one of the symmetric key)
+the rotated generation 1 is offered -/
+example : ∃ l, offeredGens ((V1.init (-1)).run [.gen ppSlot, .gen ppSlot, .gen psSlot]).1 ppSlot = some l ∧ 1 ∈ l :=
+  v1_store_offers_surviving_poison_keys _ (by intro o ho; simp at ho; rcases ho with rfl | rfl | rfl <;> rfl) ppSlot rfl 1
+    (by decide +kernel)
+
+/-- `v1_cached_store_keeps_offering_poison_keys`: unbounded cache, a detection attempt, then a rotation by the same handle -/
+example : ∃ l2, offeredGens (((((V1.init 0).run [.gen ppSlot]).1.step (.all ppSlot)).1.run [.gen ppSlot]).1) ppSlot = some l2 ∧ 1 ∈ l2 :=
+  v1_cached_store_keeps_offering_poison_keys 0 [.gen ppSlot] [.gen ppSlot] ppSlot 1 [1]
+    (by intro o ho; simp at ho; subst ho; rfl) (by intro o ho; simp at ho; subst ho; rfl)
+    (by decide +kernel) (by decide) (by decide +kernel)
+
+/-- `poison_under_offered_generation_alarms_block` on the ROTATED poison symmetric key: the store (no cache) has seen two
+generations, offers `[2, 1]`; the record was made under generation 1 (`[1,2,3]`), generation 2 (`[4,5]`) has another key
+id; embedded between `ab` and `c` – alarm. -/
+example :
+    let km : PoisonMaterial := ⟨fun _ => [], fun g => if g = 1 then [1,2,3] else [4,5]⟩
+    let st := ((V1.init (-1)).run [.gen psSlot, .gen psSlot]).1
+    let pkW : KeyView := ⟨none, none, some [1,2,3], none⟩
+    let cfg : PoisonCfg := ⟨true, false, storePoisonView km st⟩
+    let kv : KeyView := ⟨none, none, some [8], some [[8]]⟩
+    ∃ P, createPoison toyOps pkW .block 3 (List.replicate 59 5) = .ok P ∧
+      1 ≤ (proxyOnColumn toyOps cfg kv ([97,98] ++ P ++ [99])).2 := by
+  intro km st pkW cfg kv
+  have hs := toy_sealLaws
+  have hsl := toy_sealLen
+  have hkid := keyId_length toyOps toy_hashLen [1,2,3] []
+  obtain ⟨b, hb⟩ := block_create_total toyOps hs [1,2,3] [] ((List.replicate 59 5).take 3) ((List.replicate 59 5).drop 3)
+    (by decide) (by decide) (by decide) (by decide)
+  obtain ⟨hbl, _, hek⟩ := block_sizes toyOps hs hsl _ _ _ _ b hkid hb
+  have hbne : b ≠ [] := by intro h; rw [h] at hbl; simp at hbl
+  have hP : createPoison toyOps pkW .block 3 (List.replicate 59 5) = .ok (serBytes b idBlock) := by
+    rw [createPoison_block_eq toyOps pkW [1,2,3] 3 _ b rfl hb, c01_serialize_eq _ hbne]
+  have hoff : offeredGens st psSlot = some [2, 1] := by decide +kernel
+  refine ⟨_, hP, (poison_under_offered_generation_alarms_block toyOps km st 1 [2, 1] hoff (by decide) hs hkid cfg rfl rfl kv pkW rfl
+    3 _ _ [97,98] [99] hP ?_ ?_ ?_ (by decide)).1⟩
+  · intro g' hg' encKey _ hid
+    have : g' = 2 := by simpa using hg'
+    subst this
+    exact absurd hid (by decide)
+  · intro ek h; rw [hek ek h]; decide
+  · rw [c01_serBytes_length, hbl]; decide
+
+end StoreExamples
 
 end AcraModel.Props.C15
